@@ -6,7 +6,10 @@ R33.1 RN.1 for the generators: terminal names (generate_terminal_names, GrammarC
 R33.2 who_may_write(Scope.names): only Scope::new and Scope::add_name.
 R33.3 every name handed to Scope::add_name at the symbol-creating sites of symbol_table.rs derives from
       make_unique_name of the same scope (or is the UNNAMED sentinel).
-Validity as Rust identifiers (string computation) is NOT decided."""
+R33.4 terminal names built from punctuation: the replacement table only contains identifier characters and the assembled
+      name is returned unchanged only after it was tested to contain an alphanumeric character and not to start with a
+      digit.
+Validity of the other identifiers (string computations in NamingHelper) is NOT decided."""
 from ..callgraph import CallGraph
 from ..dataflow import operand_term, raw_operand_place, single_def, forward_derived
 from .common import PA, where, short, fn_key, recv_fields, all_places
@@ -69,3 +72,58 @@ def check(ctx):
                           "the name added to the scope comes from make_unique_name (or is passed through by a helper)",
                           "a name is added to a scope without make_unique_name (%s)" % why, where(b, c.line))
     ctx.require_floor("R33.3", "add_name_sites", n, 2)
+    r33_4(ctx, facts)
+
+
+def r33_4(ctx, facts):
+    """terminal names built from punctuation: (a) every replacement string of the character table is made of identifier
+    characters, (b) the assembled name is returned unchanged only if it was tested to contain an alphanumeric character
+    and not to start with a digit - a name made of underscores only (`_`, `__`) is not a valid Rust identifier."""
+    import re
+    from ..dataflow import operand_term, single_def
+    from .common import transitive_control_deps, control_dependence_no_errors, str_consts, closure_of_arg_any
+    G = "parol::generators::terminal_name_generator::generate_terminal_name::generate_name"
+    g = facts.body(G)
+    entries = []
+    for cl in facts.closures_of(g):
+        if cl.parent != G:
+            continue
+        for sconst, line in str_consts(cl):
+            entries.append((sconst, line, cl))
+    bad = [(e, l) for e, l, _c in entries if not re.fullmatch(r"[A-Za-z0-9_]*", e)]
+    ctx.check(len(entries) >= 30 and not bad, "R33.4", "terminal-name-table|identifier-characters",
+              "all %d replacement strings of the punctuation table consist of identifier characters" % len(entries),
+              "replacement strings %s of the punctuation table contain characters that cannot occur in an identifier" % bad,
+              where(g))
+    # (b) plain return of the assembled name
+    cd = control_dependence_no_errors(g)
+    plain = []
+    for bi, si, p, rv, line, mac in g.assigns():
+        if p == [0] and rv[0] == "use" and rv[1][0] in ("c", "m"):
+            plain.append((bi, line))
+    if not plain:
+        raise __import__("pv.facts", fromlist=["AnchorMissing"]).AnchorMissing("generate_name: no plain return of the name")
+    for bi, line in plain:
+        tests = {}
+        for a, s, k in transitive_control_deps(g, bi, cd=cd):
+            if k and k[0] == "call" and (k[1].path or "").split("::")[-1] in ("contains", "starts_with", "any", "all", "is_empty"):
+                cl = closure_of_arg_any(facts, g, k[1])
+                pred = None
+                if cl is not None:
+                    names = {(c.path or "").split("::")[-1] for c in cl.calls()}
+                    pred = "alphanumeric" if "is_alphanumeric" in names or "is_alphabetic" in names else \
+                        "numeric" if names & {"is_numeric", "is_ascii_digit", "is_digit"} else None
+                vals = [v for v, t in g.switch_edges(a) if t == s]
+                truth = any(v != 0 for v in vals)
+                if k[2]:
+                    truth = not truth
+                tests[((k[1].path or "").split("::")[-1], pred)] = truth
+        has_alnum = tests.get(("contains", "alphanumeric")) is True or tests.get(("any", "alphanumeric")) is True
+        no_digit_start = tests.get(("starts_with", "numeric")) is False
+        ctx.check(has_alnum and no_digit_start, "R33.4", "generate_name|plain-name-is-identifier",
+                  "the assembled name is returned as is only when it contains an alphanumeric character and does not start "
+                  "with a digit",
+                  "generate_name returns the assembled name without checking that it %s: a terminal made of unlisted symbols "
+                  "only (e.g. the euro sign) is named `_`, which is not a valid Rust identifier (the generated node-kind enum does not "
+                  "compile)" % ("contains an alphanumeric character" if not has_alnum else "does not start with a digit"),
+                  where(g, line))
